@@ -191,11 +191,15 @@ Proof. exact query_scope_from_table. Qed.
 Print Assumptions Capstone_query_scope_from_table.
 
 (* the tuple a group presents to HAVING and the select list, in textbook terms: each grouping column
-   holds the value it has in the group's first member, and `*` holds the member rows *)
+   holds the value it has in the group's first member, and `*` holds the member rows
+   (grouping columns are paths, [gkey]: the tuple carries each under its name, with the value [key_value] the path
+   has in the first member; [names_unambiguous]: one name, one column, as in the code's map of grouping columns) *)
 Theorem Capstone_group_tuple : forall cols rows g,
+  names_unambiguous cols ->
   rows_ok cols rows = true -> In g (group_spec cols rows) ->
   exists r rest, snd g = r :: rest /\ In r rows /\
-    (forall c, In c cols -> c <> "*"%string -> lookup c (group_tuple g) = Some (column c r)) /\
+    (forall c : gkey, In c cols -> gk_name c <> "*"%string ->
+       lookup (gk_name c) (group_tuple g) = Some (key_value c r)) /\
     lookup "*"%string (group_tuple g) = Some (VArr (snd g)).
 Proof. exact group_tuple_reading. Qed.
 Print Assumptions Capstone_group_tuple.
@@ -348,7 +352,7 @@ Module Ex.
   Definition qg : select stmt :=
     {| s_with := []; s_from := FTable ["t"] "";
        s_where := Some (ECmp OpGt (ECol ["b"]) (ENum 0));
-       s_group := ["g"];
+       s_group := [gcol "g"];
        s_having := Some (EAnd (ECmp OpLt (EAgg AMax (Some ["b"])) (ENum 9))
                               (ENot (ECmp OpEq (ECol ["g"]) (EStr "none"))));
        s_items := [IExpr (EAgg ACount None) "n"; IExpr (EAgg ASum (Some ["a"])) "sa";
